@@ -43,6 +43,17 @@ def gen_cases(ctx, n):
         bs = [r.randrange(256) for _ in range(ln)]
         out.append(_mk(r.randrange(65536), bs, [], {"len=4096+", "pieces=0"}))
         out.append(_mk(0, bs, [r.randrange(ln), 0, 1], {"len=4096+", "pieces=3"}))
+    # the accumulator inside the buffer (a record summed in place with its own CRC field): the bytes of the call are the
+    # buffer as it stands at the call, the field holding the start value (little-endian on the platforms the harness runs on)
+    import sys as _sys
+    for _ in range(60 if _sys.byteorder == "little" else 0):
+        ln = r.choice([2, 4, 16, 64, 65, 300])
+        bs = [r.randrange(256) for _ in range(ln)]
+        off = 2 * r.randrange(0, (ln - 2) // 2 + 1)
+        c = r.choice([0, 0xffff, r.randrange(65536)])
+        bs[off], bs[off + 1] = c & 255, c >> 8
+        out.append(Case("crca %04x %s %x" % (c, bytes(bs).hex(), off), spec="crcref %04x %s" % (c, bytes(bs).hex()),
+                        tags={"c-only", "aliased-accumulator"}))
     while len(out) < n:
         ln = min(int(r.expovariate(1 / 40.0)), 4000) if r.random() < 0.9 else r.randrange(0, 3)
         bs = [r.randrange(256) for _ in range(ln)]
@@ -67,7 +78,7 @@ def gen_cases(ctx, n):
 
 def nontrivial(c):
     t = c.op.split()
-    return len(t[2]) >= 4 and t[3] != "-"
+    return len(t[2]) >= 4 and t[3] != "-" and t[0] == "crc"
 
 
 def signature(case, c_out, why):
